@@ -97,6 +97,9 @@ def run(tier):
                 viewed = set(exp["cells"])
                 frame = any(o["store"][c] != exp["store"][c] for c in range(len(exp["store"])) if c not in viewed) if o.get("store") and len(o["store"]) == len(exp["store"]) else True
                 bad.append(("frame" if frame else "exact", exp["store"], o.get("store")))
+            if o.get("news", 0) != 0:
+                # an assignment through a view took memory from the heap ("never ... reallocates anything")
+                bad.append(("assignment_through_view_allocated", 0, o.get("news")))
             if o.get("guards_ok") is not True:
                 bad.append(("wrote_outside_root", True, o.get("guards_ok")))
             if o.get("twin_frame_ok") is not True:
